@@ -91,7 +91,18 @@ type Prop struct {
 
 var Props = map[string]*Prop{}
 
-func Register(p *Prop) { Props[p.ID] = p }
+func Register(p *Prop) {
+	run := p.Run
+	p.Run = func(t *testing.T, s Scenario, src verifsim.DecisionSource, keep bool) *RunResult {
+		curSched, curSeed = s.Base().Sched, s.Base().Seed
+		if v := os.Getenv("VERIF_FORCE_PREEMPT"); v != "" { // debugging aid (determinism hunts)
+			curSched.PreemptM, _ = strconv.Atoi(v)
+		}
+		defer func() { curSched = SchedProfile{} }()
+		return run(t, s, src, keep)
+	}
+	Props[p.ID] = p
+}
 
 // ---------------------------------------------------------------------------
 
